@@ -421,6 +421,7 @@ def monitor_c19(rep, n, pid="C19"):
         install_exact()
         G.set_partition(c["adds"], c["nons"])
         try:
+            C.arm(30)
             R = KindRun(c)
             h = R.hub
             for i, op in enumerate(c["ops"]):
@@ -480,7 +481,10 @@ def monitor_c19(rep, n, pid="C19"):
                             bad(c, i, f"release delivered {delivered} < min(outstanding {outstanding}, contents {sto0}) although downstream still has room for {room}")
             st["river_cases" if c["cls"] == "River" else "reservoir_cases"] += 1
             rep.add_eval(("mon_c19", str(c)), nontrivial=len(c["ops"]) >= 2)
+        except C.TooSlow:
+            pass          # exact rationals exploded: case dropped
         finally:
+            C.disarm()
             G.reset_partition()
     st["violations"] = viol
     rep.monitor[f"{pid}_kinds"] = st
@@ -512,6 +516,7 @@ def monitor_c08_kinds(rep, n, pid="C08"):
         install_exact()
         G.set_partition(c["adds"], c["nons"])
         try:
+            C.arm(30)
             R = KindRun(c)
             watch = [(arc, a["ty"]) for (arc, nb), a in zip(R.outs, c["outs"]) if a["ty"] not in ALLOWED]
             st["arcs_to_other_types_watched"] += len(watch)
@@ -533,7 +538,10 @@ def monitor_c08_kinds(rep, n, pid="C08"):
             rep.add_eval(("mon_c08_kinds", str(c)), nontrivial=bool(watch))
         except Exception as ex:
             rep.notes.append(f"{pid} kind-filter monitor: case raised {type(ex).__name__}: {ex}")
+        except C.TooSlow:
+            pass          # exact rationals exploded: case dropped
         finally:
+            C.disarm()
             G.reset_partition()
     st["violations"] = viol
     rep.monitor[f"{pid}_kind_filters"] = st
